@@ -24,7 +24,16 @@ EXPLANATION = (
     "addition, subtraction as addition of the negation, equality by length, equal => "
     "equal hash, mutual consistency and transitivity of the order, the 7/24/60/60 ratios) "
     "are ghost programs proved over those contracts. TimeZone is excluded as the property says.")
-ASSUMPTIONS = ["decimal components are proved over mathematical reals (float rounding not modelled)",
+ASSUMPTIONS = [
+    "the bounded grid in this check adds nothing on a tree where every obligation is discharged; it is a safety net for changed code that leaves the verifier's reach (reported `undecided` by the proof part), labelled bounded, never counted as proved",
+   "decimal components are proved over mathematical reals (float rounding not modelled)",
                "hash() is an uninterpreted function with congruence"]
 LEVEL_TEXT = "Proof over Int/Real for all component values; laws as lemmas over contracts."
 LEVEL_NOTE = "Floats as reals; PyVC/z3 trusted."
+
+
+def bounded(tier, seed, repo):
+    """Safety net for a changed tree on which a function of the cone has fallen out of the
+    verifier's reach (the proof then says `undecided`); never counted as proved."""
+    from . import safety_bounded
+    return safety_bounded.check_c11(tier, seed, repo)
